@@ -33,3 +33,26 @@ func VerifIsDomainOrSubdomainBytes(sub, parent []byte) bool {
 func VerifShouldStripSensitiveHeadersOnRedirect(initialHost, redirectHostPort []byte) bool {
 	return shouldStripSensitiveHeadersOnRedirect(initialHost, redirectHostPort)
 }
+
+// VerifRequestBodySources reports every body source Request.Write consults, without changing the request:
+// length of the body buffer, whether a body stream is attached, length of bodyRaw (-1 = nil), length of the
+// marshalled multipart form (-1 = no form), length of postArgs.QueryString(), parsedPostArgs.
+func VerifRequestBodySources(req *Request) (bodyBuf int, hasStream bool, raw int, mpart int, postArgs int, parsed bool) {
+	if req.body != nil {
+		bodyBuf = len(req.body.B)
+	}
+	hasStream = req.bodyStream != nil
+	raw = -1
+	if req.bodyRaw != nil {
+		raw = len(req.bodyRaw)
+	}
+	mpart = -1
+	if req.multipartForm != nil {
+		if b, err := marshalMultipartForm(req.multipartForm, req.multipartFormBoundary); err == nil {
+			mpart = len(b)
+		}
+	}
+	postArgs = len(req.postArgs.QueryString())
+	parsed = req.parsedPostArgs
+	return
+}
